@@ -481,7 +481,7 @@ class FixedPoint:
             
         w = self.sw + self.iw + self.fw
         
-        maxv = 1 << (self.iw -1)
+        maxv = (1 << self.iw) >> 1   # 2**(iw-1); 0 when there are no integer bits
         
         if (v > maxv):
             raise Exception('Value {} greater than max value: {}'.format(v, maxv))
